@@ -377,8 +377,18 @@ func TestVerifC11Amp(t *testing.T) {
 	}
 
 	// ---------------------------------------------------------------- 3. domain prefix
-	for i := 0; i < r.N(800, 15000); i++ {
-		d := c11Domain(rng)
+	// Punycode labels in every position, between plain labels (fixed: the random generator rarely builds a domain whose
+	// other labels are all valid)
+	fixedDomains := []string{"snowflake.xn--bcher-kva.example", "a.xn--57hw060o.com", "www.xn--bcher-kva.xn--57hw060o", "x.y.xn--bcher-kva",
+		"xn--bcher-kva.example", "xn--bcher-kva.xn--bcher-kva.example", "en-us.xn--bcher-kva.example.com", "a.b.c.xn--57hw060o",
+		"snowflake-broker.xn--bcher-kva.net", "XN--BCHER-KVA.example", "www.XN--bcher-kva.example", "a.xn--bcher-kva"}
+	for i := 0; i < len(fixedDomains)+r.N(800, 15000); i++ {
+		d := ""
+		if i < len(fixedDomains) {
+			d = fixedDomains[i]
+		} else {
+			d = c11Domain(rng)
+		}
 		digest := sha256.Sum256([]byte(d))
 		basic, berr := domainPrefixBasic(d)
 		fb := domainPrefixFallback(d)
